@@ -347,3 +347,46 @@ func edgeDominates(b *ssa.BasicBlock, idx int, use *ssa.BasicBlock) bool {
 	}
 	return s == use || s.Dominates(use)
 }
+
+// regionFns returns fn and the functions of its own package that it can reach through static calls within `depth`
+// steps, excluding `stop` (dispatchers such as eval, Compile or format, whose bodies are everybody's). It is how the
+// rules follow a clause into a helper that was extracted from the anchored function.
+func regionFns(fn *ssa.Function, depth int, stop map[string]bool) []*ssa.Function {
+	if fn == nil {
+		return nil
+	}
+	seen := map[*ssa.Function]bool{}
+	var out []*ssa.Function
+	var visit func(f *ssa.Function, d int)
+	visit = func(f *ssa.Function, d int) {
+		if f == nil || seen[f] || f.Blocks == nil {
+			return
+		}
+		seen[f] = true
+		out = append(out, f)
+		for _, an := range f.AnonFuncs {
+			visit(an, d)
+		}
+		if d == 0 {
+			return
+		}
+		for _, b := range f.Blocks {
+			for _, ins := range b.Instrs {
+				ci, ok := ins.(ssa.CallInstruction)
+				if !ok {
+					continue
+				}
+				sc := ci.Common().StaticCallee()
+				if sc == nil || sc.Pkg == nil || fn.Pkg == nil || sc.Pkg != fn.Pkg || stop[sc.Name()] {
+					continue
+				}
+				visit(sc, d-1)
+			}
+		}
+	}
+	visit(fn, depth)
+	return out
+}
+
+// dispatcherNames: functions whose bodies dispatch over all node kinds; a region never extends into them.
+var dispatcherNames = map[string]bool{"eval": true, "Compile": true, "format": true, "Run": true, "parseStatement": true, "parseExpr": true, "wrapAny": true}
